@@ -6,8 +6,15 @@ import machine
 from props import c03
 
 ID = "C05"
-LEAN_MODULES = ["QProps.C05", "QProps.C05h"]
+LEAN_MODULES = ["QProps.C05", "QProps.C05h", "QProps.C05x"]
 THEOREMS = [
+    "MM.ginv_trial_compExch",
+    "MM.nexch_compExch",
+    "MM.compExch_rows_single",
+    "MM.compMembers_trial",
+    "MM.gc_mixed_history_x",
+    "MM.counter_drifts_after_composite_insertion",
+    "MM.shared_labelling_needs_equal_defaults",
     "MM.labels_aligned_after_accept",
     "MM.inserted_particle_one_label",
     "MM.auto_label_fresh",
